@@ -278,6 +278,8 @@ type APIOpts struct {
 	MaxOps     int
 	MaxPayload int
 	MaxDelta   uint32
+	// LongTracks > 0: one track in LongTracks gets 1000..5000 Add calls (short payloads, small deltas)
+	LongTracks int
 }
 
 // Message draws any message of the C01 domain.
@@ -309,6 +311,11 @@ func API(t *rapid.T, o APIOpts) APICase {
 	for i := 0; i < ntr; i++ {
 		var to TrackOps
 		nops := rapid.IntRange(0, o.MaxOps).Draw(t, "nOps")
+		o := o
+		if o.LongTracks > 0 && rapid.IntRange(0, o.LongTracks-1).Draw(t, "longTrack?") == 0 {
+			nops = rapid.IntRange(1000, 5000).Draw(t, "nOpsLong")
+			o.MaxPayload, o.MaxDelta = min(o.MaxPayload, 40), min(o.MaxDelta, 3)
+		}
 		var prev []byte
 		closeAt := -1
 		switch rapid.IntRange(0, 3).Draw(t, "closeMode") {
